@@ -93,6 +93,7 @@ Ev ==
          /\ LET op == [gen |-> e.gen] @@ ops[p] IN
             \E o \in Step(st, op) :
                /\ o.resp.ok /\ st' = o.st /\ exp' = Put(exp, p, o.resp)
+               /\ GenInv(o.st)              \* the generation the store reports respects the versioning laws
                \* what the store shows under the lock is the committed object
                /\ HasObj(o.st, e.b, e.n) => (Obj(o.st, e.b, e.n).gen = e.gen /\ Obj(o.st, e.b, e.n).metagen = e.metagen)
          /\ committed' = committed \cup {p}
